@@ -256,6 +256,36 @@ class Session:
         self.emit(ev)
         return val
 
+    def api(self, mh, what, group="", role=""):
+        """Describe the operations a class exposes (names, parameter names/kinds/defaults)."""
+        import inspect
+
+        cls = type(mh.m) if what == "model" else type(mh.m.rating())
+
+        def describe(name, fn):
+            try:
+                sig = inspect.signature(fn)
+            except (TypeError, ValueError):
+                return name + "(?)"
+            ps = []
+            for p in sig.parameters.values():
+                d = ""
+                if p.default is not inspect.Parameter.empty:
+                    d = "=" + (getattr(p.default, "__name__", None) or repr(p.default))
+                ps.append("%s:%s%s" % (p.name, p.kind.name, d))
+            return "%s(%s)" % (name, ",".join(ps))
+
+        names = sorted(n for n in dir(cls) if not n.startswith("_") and callable(getattr(cls, n)) and not isinstance(getattr(cls, n), type))
+        dunders = sorted(n for n in vars(cls) if n.startswith("__") and callable(vars(cls)[n]) and n not in ("__init__",))
+        desc = [describe("__init__", cls.__init__)] + [describe(n, getattr(cls, n)) for n in names] + [describe(n, vars(cls)[n]) for n in dunders]
+        fields = sorted(a for a in vars(mh.m if what == "model" else mh.m.rating()) if not isinstance(vars(mh.m if what == "model" else mh.m.rating())[a], type))
+        desc.append("fields:" + ",".join(fields))
+        ev = {"op": "api", "what": what, "kind": mh.kind,
+              "out": {"kind": "ok", "exc": "", "value": self.enc(desc)}}
+        ev["group"], ev["role"] = group, role
+        self.emit(ev)
+        return desc
+
     # ---------------------------------------------------------------- output
     def write(self, path):
         with open(path, "w") as f:
